@@ -46,6 +46,7 @@ def run(ck, tier):
     from . import c15
     ck.rule("R-C06-union", "the merged dictionary answers contains_exact_word / contains_word as the union of its parts: each folds the same-named query over self.children (rule instances of R-C15-merged) - otherwise a spelling the user added is still reported when an earlier part knows the same letters in another capitalisation")
     c15._merged(ck, p, c15.dictionary_impls(p), rule="R-C06-union", only=["contains_word", "contains_exact_word"])
+    c15.add_always(ck, p, "R-C06-union")
 
 
 def _id(ck, p, byk):
